@@ -128,6 +128,13 @@ func (e *C10) one(ctx *core.Ctx) {
 			node.Annotations[fmt.Sprintf(v1.ExtendedDaemonSetRessourceNodeAnnotationKey, "ns", "other-eds", cn)] = `{"requests":{"cpu":"3"}}`
 		}
 	}
+	if r.Intn(5) == 0 {
+		// an override written for a container the template does not (or no longer) have: an init
+		// container, a renamed one, a typo. It changes nothing in the pod, and creation and comparison
+		// must agree about it
+		node.Annotations[fmt.Sprintf(v1.ExtendedDaemonSetRessourceNodeAnnotationKey, "ns", "eds", []string{"init", "sidecar-gone", "c0 "}[r.Intn(3)])] = `{"requests":{"cpu":"3"}}`
+		ctx.Count("C10.with-annotation-for-absent-container")
+	}
 	var setting *v1.ExtendedDaemonsetSetting
 	setFor := map[string]corev1.ResourceRequirements{}
 	if r.Intn(2) == 0 {
